@@ -141,16 +141,16 @@ impl World {
                 let grid = 100 * MS;
                 let off = since % grid;
                 let to_grid = if off == 0 { 0 } else { grid - off };
-                let adv = to_grid + (phase % 100) * MS;
-                if adv > 0 {
-                    tokio::time::advance(Duration::from_nanos(adv)).await;
+                // Whole milliseconds only: the paused clock then stays on the timer wheel's 1 ms
+                // ticks (tokio advances it by whole ticks and rounds deadlines up to ticks), so
+                // whole-millisecond sleeps are exact and a probe "1 ms before the deadline"
+                // really is. The grid phase keeps the random sub-millisecond part that the
+                // runtime's start instant has relative to the process-wide epoch.
+                let adv_ms = (to_grid + MS - 1) / MS + (phase % 100);
+                if adv_ms > 0 {
+                    tokio::time::advance(Duration::from_millis(adv_ms)).await;
                 }
             }
-            // Snap to the timer wheel's millisecond ticks: tokio rounds timer deadlines up to
-            // its own 1 ms ticks, so from a tick-aligned instant whole-millisecond sleeps are
-            // exact (a probe "1 ms before the deadline" really is). The grid phase keeps a
-            // random sub-millisecond part, different in every episode.
-            tokio::time::sleep(Duration::from_millis(1)).await;
         }
         Arc::new(World {
             app,
